@@ -1,1 +1,63 @@
-// Verification-only module (cfg(kani)); harnesses are added here.
+// Verification-only module (cfg(kani)); copied into the scratch copy of /repo by
+// /verif/engine/kani_run.py.
+//
+// C13, confirmation tag (RFC 9420 section 6.1 / 8.1):
+//   confirmation_tag = MAC(confirmation_key, GroupContext.confirmed_transcript_hash)
+// checked on the real ConfirmationTag::create / matches against the ghost provider of
+// key_schedule/verif_kani.rs.
+use super::*;
+
+crate::c13_ghost_support!();
+
+#[kani::proof]
+#[kani::stub(zeroize::optimization_barrier, noop_barrier)]
+#[kani::unwind(8)]
+fn c13_confirmation_tag_bounded_4() {
+    let p = GhostProvider::new();
+    let key = any_bytes::<4>();
+    let hash = any_bytes::<4>();
+    let cth = ConfirmedTranscriptHash::from(hash.clone());
+
+    let r = ConfirmationTag::create(&key, &cth, &p);
+    assert!(r.is_ok());
+    let tag = r.ok().unwrap();
+    kani::cover!(key.len() == 4 && hash.len() == 4);
+    assert!(p.calls() == 1);
+    // MAC(key = confirmation_key, data = confirmed_transcript_hash)
+    assert!(p.is(0, Op::Mac, &key, &hash, 0));
+    assert!(is_out(&tag, 1, MAC_LEN));
+}
+
+#[kani::proof]
+#[kani::stub(zeroize::optimization_barrier, noop_barrier)]
+#[kani::unwind(8)]
+fn c13_confirmation_tag_provider_error_bounded_4() {
+    let p = GhostProvider::failing_at(0);
+    let key = any_bytes::<4>();
+    let cth = ConfirmedTranscriptHash::from(any_bytes::<4>());
+    let r = ConfirmationTag::create(&key, &cth, &p);
+    kani::cover!(true);
+    assert!(is_provider_error(&r));
+    core::mem::forget(r);
+}
+
+// matches() recomputes the same MAC and accepts exactly the recomputed value
+#[kani::proof]
+#[kani::stub(zeroize::optimization_barrier, noop_barrier)]
+#[kani::unwind(8)]
+fn c13_confirmation_tag_matches_bounded_4() {
+    let p = GhostProvider::new();
+    let key = any_bytes::<4>();
+    let hash = any_bytes::<4>();
+    let cth = ConfirmedTranscriptHash::from(hash.clone());
+    let claimed = ConfirmationTag(any_bytes::<6>());
+
+    let r = claimed.matches(&key, &cth, &p);
+    assert!(r.is_ok());
+    let ok = r.ok().unwrap();
+    kani::cover!(ok);
+    kani::cover!(!ok);
+    assert!(p.calls() == 1);
+    assert!(p.is(0, Op::Mac, &key, &hash, 0));
+    assert!(ok == is_out(&claimed, 1, MAC_LEN));
+}
